@@ -8,7 +8,7 @@ full = "--full" in sys.argv
 meta = json.load(open(os.path.join(src, "meta.json")))
 m = re.search(r"to\s+(\S+\.go)", meta["demo_placement"])
 place = m.group(1)
-run = re.search(r"-run\s+'([^']+)'\s+(\S+)", meta["demo_cmd"])
+run = re.search(r"-run\s+'?([^'\s]+)'?\s+(\S+)", meta["demo_cmd"])
 pat, pkg = run.group(1), run.group(2)
 env = dict(os.environ, GOFLAGS="-mod=mod", GOPROXY="off", GOSUMDB="off", GOTOOLCHAIN="local")
 wt = tempfile.mkdtemp(prefix="seedconfirm-", dir="/tmp")
